@@ -101,3 +101,14 @@ Definition copy_guard_ok (g : list gatom) : bool :=
 Definition atom_sound (a : atom) : bool :=
   atom_eqb a (BX, CLt, BZero) || atom_eqb a (BX, CGe, BWidth) || atom_eqb a (BY, CLt, BZero) || atom_eqb a (BY, CGe, BHeight).
 Definition bounds_exact (ds : list atom) : bool := bounds_ok ds && forallb atom_sound ds.
+
+(** * the frame table: every site that addresses [_frames] builds the key (frame, side-or-depth, mipmap) *)
+Inductive krole := KFrame | KSide | KMip | KOther.
+Definition krole_eqb (a b : krole) : bool :=
+  match a, b with KFrame, KFrame | KSide, KSide | KMip, KMip | KOther, KOther => true | _, _ => false end.
+Fixpoint kroles_eqb (l1 l2 : list krole) : bool :=
+  match l1, l2 with [], [] => true | a :: r1, b :: r2 => krole_eqb a b && kroles_eqb r1 r2 | _, _ => false end.
+Definition key_ok (rs : list krole) : bool := kroles_eqb rs [KFrame; KSide; KMip].
+(** the key a site builds for frame [f], side/depth [s], mipmap [m] ([o]: whatever else it puts there) *)
+Definition kval (r : krole) (f s m o : Z) : Z := match r with KFrame => f | KSide => s | KMip => m | KOther => o end.
+Definition key_of (rs : list krole) (f s m o : Z) : list Z := map (fun r => kval r f s m o) rs.
